@@ -84,9 +84,9 @@ func (m *Machine) global(g *ssa.Global) *Obj {
 // silently compute nonsense.
 var externZeroOK = map[string]bool{
 	"github.com/dgraph-io/badger/v2.DefaultIteratorOptions": true,
-	"encoding/base64.StdEncoding":                            true,
-	"encoding/base64.URLEncoding":                            true,
-	"github.com/gorilla/websocket.DefaultDialer":             true,
+	"encoding/base64.StdEncoding":                           true,
+	"encoding/base64.URLEncoding":                           true,
+	"github.com/gorilla/websocket.DefaultDialer":            true,
 }
 
 // externGlobal materialises globals of packages whose init is not run.
@@ -449,6 +449,39 @@ func (m *Machine) binop(op token.Token, a, b Value, xt types.Type, rt types.Type
 		}
 		panic(abortf("binop %s on opaque %s", op, x.tag))
 	}
+	if x, ok := a.(FloatVal); ok {
+		if y, ok := b.(FloatVal); ok {
+			// floating-point arithmetic on CONCRETE operands is done as the machine does it; symbolic
+			// floats are outside the encoder
+			if fx, ok1 := x.concrete(); ok1 {
+				if fy, ok2 := y.concrete(); ok2 {
+					switch op {
+					case token.ADD:
+						return FloatVal{conc: true, f: fx + fy}
+					case token.SUB:
+						return FloatVal{conc: true, f: fx - fy}
+					case token.MUL:
+						return FloatVal{conc: true, f: fx * fy}
+					case token.QUO:
+						return FloatVal{conc: true, f: fx / fy}
+					case token.LSS:
+						return mkBool(fx < fy)
+					case token.LEQ:
+						return mkBool(fx <= fy)
+					case token.GTR:
+						return mkBool(fx > fy)
+					case token.GEQ:
+						return mkBool(fx >= fy)
+					case token.EQL:
+						return mkBool(fx == fy)
+					case token.NEQ:
+						return mkBool(fx != fy)
+					}
+				}
+			}
+			panic(abortf("binop %s on symbolic float64 values (floating-point arithmetic is outside the encoder)", op))
+		}
+	}
 	switch op {
 	case token.EQL:
 		return m.valueEq(m.normNil(a, b), m.normNil(b, a))
@@ -582,6 +615,10 @@ func (m *Machine) convert(v Value, from, to types.Type) Value {
 		}
 		if isIntType(to) {
 			bits, signed := typeBits(to)
+			if x.conc {
+				bi, _ := new(big.Float).SetFloat64(x.f).Int(nil) // truncation toward zero, as Go's conversion
+				return tWrap(mkIntBig(bi), bits, signed)
+			}
 			return tWrap(x.t, bits, signed) // integer-valued: truncation is the identity
 		}
 	case StrVal:
